@@ -168,6 +168,8 @@ def run(ctx, chk):
             if res == ("none",):
                 # only the field's 'not available' code may lack a scaled value (which code that is, is C11's
                 # business; here: every other raw value must be reported, scaled)
+                if k0 == "opt":
+                    continue      # plain optional integers (heading, dates, ...) belong to C11 alone
                 sent = _sentinel(kind, offw[1])
                 extra = codes if sent is None else codes.minus(IntSet.of(sent))
                 chk.ob(extra.is_empty(), "C10/unscaled/%s/%s/%s" % (struct, p, extra.iv[:2]),
